@@ -9,6 +9,16 @@ ROOT = pathlib.Path(__file__).resolve().parent.parent
 
 # id -> (technique, level text, level_note, design_ref)
 CHECKS = {
+    "C11": (
+        "metamorphic monitor: structural view before resolution + rule-computed expectation vs the view after resolve(); wire / model / derived-fact invariance; idempotence",
+        "6000 (quick) / 200000 (thorough) type expressions (opaque types nested in sums, function types, polymorphic bodies, type and sequence "
+        "arguments and arguments of other opaque types, over std, harness and freshly generated definitions) and 600 / 20000 loaded module "
+        "HUGRs are resolved against empty, single-extension, subset, complete and definition-pruned registries. Every position must be "
+        "replaced exactly when the registry defines it; the serialized form (descriptions masked), the exported model, signatures, port "
+        "kinds/types and bounds must not change; resolving twice must equal resolving once.",
+        "Trusted: the view/expectation functions in vf/props/c11.py; registries are built from pruned copies of the real definitions.",
+        "DESIGN.md §3 C11",
+    ),
     "C20": (
         "output monitor: parser for the emitted DOT subset; count / nesting / endpoint / label oracle against the HUGR's public queries; snapshot before/after; structural identity across render configurations",
         "800 (quick) / 25000 (thorough) HUGRs from builder programs (plus metadata, extra order links and mutation histories) are rendered under "
